@@ -161,7 +161,10 @@ pub(crate) fn replay_wal(
 			match reader.read() {
 				Ok((record_data, offset)) => {
 					last_valid_offset = offset as usize;
-					let batch = Batch::decode(record_data)?;
+					let mut batch = Batch::decode(record_data)?;
+					// Fix the skiplist tower heights now, so that the space the batch
+					// needs is known before it is inserted.
+					batch.heights = MemTable::draw_heights(&batch);
 					let batch_highest_seq_num = batch.get_highest_seq_num();
 
 					if batch_highest_seq_num > max_seq_num {
@@ -182,20 +185,21 @@ pub(crate) fn replay_wal(
 					match current_memtable.add(&batch) {
 						Ok(()) => {}
 						Err(Error::ArenaFull) => {
-							// Edge case: single segment exceeds memtable capacity
-							if current_memtable.is_empty() {
-								return Err(Error::Other(format!(
-									"Batch too large for memtable (batch size exceeds arena_size={})",
-									arena_size
-								)));
+							// The batch does not fit into what is left of the current
+							// memtable (nothing of it has been inserted). Save the current
+							// memtable, if it holds anything, and go on with a new one.
+							if !current_memtable.is_empty() {
+								log::warn!(
+									"WAL segment #{:020} exceeds single memtable capacity, splitting",
+									segment_id
+								);
+								memtables.push((Arc::clone(&current_memtable), segment_id));
 							}
-							// Save current memtable and create new one
-							log::warn!(
-								"WAL segment #{:020} exceeds single memtable capacity, splitting",
-								segment_id
-							);
-							memtables.push((Arc::clone(&current_memtable), segment_id));
-							current_memtable = Arc::new(MemTable::new(arena_size));
+							// A logged batch must always be recoverable: if it needs more
+							// than the configured memtable size (written under a larger
+							// setting), give it a memtable of the size it needs.
+							let needed = MemTable::capacity_needed_when_empty(&batch) as usize;
+							current_memtable = Arc::new(MemTable::new(arena_size.max(needed)));
 							// Retry on fresh memtable
 							current_memtable.add(&batch)?;
 						}
